@@ -225,6 +225,30 @@ func (ex *Exec) appendBytes(fr *Frame, a0, a1 Value) Value {
 		t = y
 	}
 	s := a0.(RefV)
+	// a buffer of several marshalled lines
+	if elems, ok := ex.asBoxSeq(s); ok && len(elems) > 0 {
+		_, sIsSingleBox := s.Alts[0].Tgt.(BoxT)
+		if tb, isBox := singleBox(t); isBox {
+			ex.nextID++
+			return Ref1(BoxSeqT{id: ex.nextID, Elems: append(append([]SeqElem(nil), elems...), SeqElem{True, tb})})
+		}
+		if !(len(s.Alts) == 1 && sIsSingleBox) {
+			// append(buf, '\n'): the terminator of the last line
+			last := elems[len(elems)-1]
+			nb := *last.B
+			ex.nextID++
+			nb.id = ex.nextID
+			nb.Keys = map[string]*Term{}
+			for k, v := range last.B.Keys {
+				nb.Keys[k] = v
+			}
+			nb.Keys["\n"] = IntC(1)
+			ne := append([]SeqElem(nil), elems[:len(elems)-1]...)
+			ne = append(ne, SeqElem{last.G, &nb})
+			ex.nextID++
+			return Ref1(BoxSeqT{id: ex.nextID, Elems: ne})
+		}
+	}
 	for _, a := range s.Alts {
 		if bt, ok := a.Tgt.(BoxT); ok {
 			// append(marshalled, '\n'): record the terminator on the box
@@ -275,3 +299,65 @@ func litOf(v Value) (string, bool) {
 }
 
 var _ = strings.TrimSpace
+
+func singleBox(t RefV) (*Box, bool) {
+	if len(t.Alts) != 1 {
+		return nil, false
+	}
+	if bt, ok := t.Alts[0].Tgt.(BoxT); ok {
+		return bt.B, true
+	}
+	return nil, false
+}
+
+// asBoxSeq: the value as one sequence of guarded lines. A union of alternatives that are
+// sub-sequences of one another (loop iterations that did or did not append) is merged: an element
+// is present iff some alternative holding it is the actual one.
+func (ex *Exec) asBoxSeq(s RefV) ([]SeqElem, bool) {
+	var order []*Box
+	pos := map[*Box]int{}
+	guards := map[*Box]*Term{}
+	sawSeq := false
+	for _, a := range s.Alts {
+		var elems []SeqElem
+		switch t := a.Tgt.(type) {
+		case BoxT:
+			elems = []SeqElem{{True, t.B}}
+			sawSeq = true
+		case BoxSeqT:
+			elems = t.Elems
+			sawSeq = true
+		case SliceT:
+			if !(t.Len.IsConst() && t.Len.SVal() == 0) {
+				return nil, false
+			}
+		default:
+			return nil, false
+		}
+		prev := -1
+		for _, e := range elems {
+			key := e.B
+			// a line and the same line with its terminator added are the same element
+			i, known := pos[key]
+			if !known {
+				i = len(order)
+				pos[key] = i
+				order = append(order, key)
+				guards[key] = False
+			}
+			if i <= prev {
+				return nil, false
+			}
+			prev = i
+			guards[key] = Or(guards[key], And(a.C, e.G))
+		}
+	}
+	if !sawSeq {
+		return nil, false
+	}
+	out := make([]SeqElem, len(order))
+	for i, b := range order {
+		out[i] = SeqElem{guards[b], b}
+	}
+	return out, true
+}
